@@ -16,13 +16,13 @@ every such expression `e` satisfies  `|fl(e) − e| ≤ ((1+u)^cnt(e) − 1) · 
 roundings along the deepest path and `mag` is the expression with every literal replaced by its absolute value.  For the
 interpolator `mag = Σ_n |w_n v_n| = nlinAbs`, and `cnt` is 3 / 7 / 13 for the 1-, 2-, 3-D branch and at most `2N + 2^N + 1` for the generic branch — always below
 the `k = 2N + 2^N + 3` the judge of the correspondence check uses (`lin1_round`, `lin2_round`, `lin3_round`,
-`linGeneric_round`).  `gamma_bound`
+`linGeneric_round`, and `linGenericC_round` for the weight product associated exactly as in the code).  `gamma_bound`
 is the textbook `(1+u)^k − 1 ≤ k·u / (1 − k·u)`: the judge's `γ_k · nlinAbs` therefore dominates the proved bound.
 
 Partial: the subnormal range (where the relative-error model fails and the judge adds `k · tiny · max(1, Σ|v|)`), the two
-precision conversions around the sum (two more roundings: hence the `+ 3` of the judge) and the association order of the
-generic branch's weight product (`f *= …` from the left in the code, nested from the right in `weight`; the count of
-roundings is the same) are argued, and checked by the correspondence, not proved here. -/
+precision conversions around the sum (two more roundings: hence the `+ 3` of the judge) and the generic branch's
+accumulation in the *value* type when that is narrower than the coordinate type are argued, and checked by the
+correspondence, not proved here. -/
 namespace Covfie.C03
 open Covfie
 
@@ -323,64 +323,149 @@ theorem exWeight_cnt (as : List ℚ) (n : Nat) : (exWeight as n).cnt ≤ 2 * as.
       by_cases hb : (n % 2 == 1) = true <;> simp [hb, Ex.cnt]
     omega
 
-/-- folding the rounded accumulation over any list of indices: evaluation, exact value, magnitude and depth -/
-theorem fold_facts (rnd : ℚ → ℚ) (as : List ℚ) (v : List Bool → ℚ) (l : List Nat) (acc : Ex) (accF : Fl rnd)
-    (hF : acc.fl rnd = accF.val) :
-    let f := fun (acc : Ex) n => Ex.add acc (Ex.mul (exWeight as n) (Ex.lit (v (bitsOf as.length n))))
-    (l.foldl f acc).fl rnd =
-        (l.foldl (fun (acc : Fl rnd) n => acc + weight (as.map fun a => (⟨a⟩ : Fl rnd)) n * inj rnd v (bitsOf as.length n)) accF).val ∧
-    (l.foldl f acc).exact = l.foldl (fun (acc : ℚ) n => acc + weight as n * v (bitsOf as.length n)) acc.exact ∧
-    (l.foldl f acc).mag = l.foldl (fun (acc : ℚ) n => acc + weightP (absP as) n * |v (bitsOf as.length n)|) acc.mag ∧
-    (l.foldl f acc).cnt ≤ max acc.cnt (2 * as.length + 1) + l.length := by
+/-- folding the rounded accumulation `acc += W n * pc[n]` over any list of indices, for any weight expression `W` whose
+    floating-point value, exact value, magnitude and depth are known: evaluation, exact value, magnitude and depth -/
+theorem fold_facts (rnd : ℚ → ℚ) (N c : Nat) (v : List Bool → ℚ) (W : Nat → Ex) (wF : Nat → Fl rnd) (wQ wA : Nat → ℚ)
+    (hfl : ∀ n, (W n).fl rnd = (wF n).val) (hex : ∀ n, (W n).exact = wQ n) (hmag : ∀ n, (W n).mag = wA n)
+    (hcnt : ∀ n, (W n).cnt ≤ c)
+    (l : List Nat) (acc : Ex) (accF : Fl rnd) (hF : acc.fl rnd = accF.val) :
+    let f := fun (acc : Ex) n => Ex.add acc (Ex.mul (W n) (Ex.lit (v (bitsOf N n))))
+    (l.foldl f acc).fl rnd = (l.foldl (fun (acc : Fl rnd) n => acc + wF n * inj rnd v (bitsOf N n)) accF).val ∧
+    (l.foldl f acc).exact = l.foldl (fun (acc : ℚ) n => acc + wQ n * v (bitsOf N n)) acc.exact ∧
+    (l.foldl f acc).mag = l.foldl (fun (acc : ℚ) n => acc + wA n * |v (bitsOf N n)|) acc.mag ∧
+    (l.foldl f acc).cnt ≤ max acc.cnt (c + 1) + l.length := by
   induction l generalizing acc accF with
   | nil => intro f; exact ⟨hF, rfl, rfl, by simp⟩
   | cons n l ih =>
     intro f
     simp only [List.foldl_cons]
-    have hF' : (f acc n).fl rnd = (accF + weight (as.map fun a => (⟨a⟩ : Fl rnd)) n * inj rnd v (bitsOf as.length n)).val := by
-      show rnd (acc.fl rnd + rnd ((exWeight as n).fl rnd * v (bitsOf as.length n))) = _
-      rw [hF, exWeight_fl]
+    have hF' : (f acc n).fl rnd = (accF + wF n * inj rnd v (bitsOf N n)).val := by
+      show rnd (acc.fl rnd + rnd ((W n).fl rnd * v (bitsOf N n))) = _
+      rw [hF, hfl]
       rfl
     obtain ⟨h1, h2, h3, h4⟩ := ih (f acc n) _ hF'
     refine ⟨h1, ?_, ?_, ?_⟩
-    · rw [h2]; simp only [f, Ex.exact, exWeight_exact]
-    · rw [h3]; simp only [f, Ex.mag, exWeight_mag]
-    · have hc : (f acc n).cnt ≤ max acc.cnt (2 * as.length + 1) + 1 := by
+    · rw [h2]; simp only [f, Ex.exact, hex]
+    · rw [h3]; simp only [f, Ex.mag, hmag]
+    · have hc : (f acc n).cnt ≤ max acc.cnt (c + 1) + 1 := by
         simp only [f, Ex.cnt]
-        have := exWeight_cnt as n
+        have := hcnt n
         omega
-      have hm : max (f acc n).cnt (2 * as.length + 1) ≤ max acc.cnt (2 * as.length + 1) + 1 := by omega
-      have h4' : (List.foldl f (f acc n) l).cnt ≤ max (f acc n).cnt (2 * as.length + 1) + l.length := h4
+      have hm : max (f acc n).cnt (c + 1) ≤ max acc.cnt (c + 1) + 1 := by omega
+      have h4' : (List.foldl f (f acc n) l).cnt ≤ max (f acc n).cnt (c + 1) + l.length := h4
       simp only [List.length_cons]
       omega
 
-/-- **generic branch, every N**: the rounded evaluation of `rv += f_n * pc[n]` over all `2^N` corners is within
-    `((1+u)^(2N + 2^N + 1) − 1) · Σ_n |w_n v_n|` of the N-linear interpolant -/
-theorem linGeneric_round (u : ℚ) (rnd : ℚ → ℚ) (h : StdModel u rnd) (as : List ℚ) (v : List Bool → ℚ) :
-    |(linGeneric (as.map fun a => (⟨a⟩ : Fl rnd)) (inj rnd v)).val - nlin as v| ≤
+/-- the bound for any such accumulation over all `2^N` corners whose weights are those of the interpolant -/
+theorem generic_round_of (u : ℚ) (rnd : ℚ → ℚ) (h : StdModel u rnd) (as : List ℚ) (v : List Bool → ℚ)
+    (W : Nat → Ex) (wF : Nat → Fl rnd)
+    (hfl : ∀ n, (W n).fl rnd = (wF n).val) (hex : ∀ n, (W n).exact = weight as n)
+    (hmag : ∀ n, (W n).mag = weightP (absP as) n) (hcnt : ∀ n, (W n).cnt ≤ 2 * as.length) :
+    |((List.range (2 ^ as.length)).foldl (fun (acc : Fl rnd) n => acc + wF n * inj rnd v (bitsOf as.length n)) 0).val - nlin as v| ≤
       g u (2 * as.length + 2 ^ as.length + 1) * nlinAbs as v := by
-  obtain ⟨h1, h2, h3, h4⟩ := fold_facts rnd as v (List.range (2 ^ as.length)) (Ex.lit 0) (0 : Fl rnd) rfl
-  have hb := (eval_bound u rnd h (exGeneric as v)).1
-  have e1 : (exGeneric as v).fl rnd = (linGeneric (as.map fun a => (⟨a⟩ : Fl rnd)) (inj rnd v)).val := by
-    unfold exGeneric linGeneric
-    rw [h1, List.length_map]
-  have e2 : (exGeneric as v).exact = nlin as v := by
-    unfold exGeneric
+  let E : Ex := (List.range (2 ^ as.length)).foldl
+    (fun acc n => Ex.add acc (Ex.mul (W n) (Ex.lit (v (bitsOf as.length n))))) (Ex.lit 0)
+  obtain ⟨h1, h2, h3, h4⟩ := fold_facts rnd as.length (2 * as.length) v W wF (weight as) (weightP (absP as)) hfl hex hmag hcnt
+    (List.range (2 ^ as.length)) (Ex.lit 0) (0 : Fl rnd) rfl
+  have hb := (eval_bound u rnd h E).1
+  have e2 : E.exact = nlin as v := by
+    show Ex.exact (List.foldl _ _ _) = _
     rw [h2, ← generic_eq_nlin]
     rfl
-  have e3 : (exGeneric as v).mag = nlinAbs as v := by
-    unfold exGeneric
+  have e3 : E.mag = nlinAbs as v := by
+    show Ex.mag (List.foldl _ _ _) = _
     rw [h3, nlinAbs_eq_nlinP, nlinP_eq_sum]
     simp only [Ex.mag, abs_zero]
     rw [foldl_range_eq_sum]
     simp [absP]
-  have e4 : (exGeneric as v).cnt ≤ 2 * as.length + 2 ^ as.length + 1 := by
-    unfold exGeneric
-    have := h4
+  have e4 : E.cnt ≤ 2 * as.length + 2 ^ as.length + 1 := by
+    have : E.cnt ≤ max (Ex.lit 0).cnt (2 * as.length + 1) + (List.range (2 ^ as.length)).length := h4
     simp only [Ex.cnt, List.length_range] at this
     omega
+  have e1 : E.fl rnd = _ := h1
   rw [e1, e2, e3] at hb
   exact le_trans hb (mul_le_mul_of_nonneg_right (g_mono u h.1 e4) (by rw [← e3]; exact mag_nonneg _))
+
+/-- **generic branch, every N** (weights nested from the right, as `weight`): the rounded evaluation of
+    `rv += f_n * pc[n]` over all `2^N` corners is within `((1+u)^(2N + 2^N + 1) − 1) · Σ_n |w_n v_n|` of the interpolant -/
+theorem linGeneric_round (u : ℚ) (rnd : ℚ → ℚ) (h : StdModel u rnd) (as : List ℚ) (v : List Bool → ℚ) :
+    |(linGeneric (as.map fun a => (⟨a⟩ : Fl rnd)) (inj rnd v)).val - nlin as v| ≤
+      g u (2 * as.length + 2 ^ as.length + 1) * nlinAbs as v := by
+  have := generic_round_of u rnd h as v (exWeight as) (weight (as.map fun a => (⟨a⟩ : Fl rnd)))
+    (exWeight_fl rnd as) (exWeight_exact as) (exWeight_mag as) (exWeight_cnt as)
+  unfold linGeneric
+  rw [List.length_map]
+  exact this
+
+/-! #### … and in the association order of the code: `f = 1; for m: f *= …` -/
+open Ex in
+def exWeightGo : List ℚ → Nat → Ex → Ex
+  | [], _, f => f
+  | a :: as, n, f => exWeightGo as (n / 2) (mul f (if n % 2 == 1 then lit a else oneMinus a))
+
+theorem weightGo_eq (as : List ℚ) (n : Nat) (f : ℚ) : weightGo as n f = f * weight as n := by
+  induction as generalizing n f with
+  | nil => simp [weightGo, weight]
+  | cons a as ih => simp only [weightGo, weight]; rw [ih]; ring
+
+theorem weightGoP_eq (as : List ℚ) (n : Nat) :
+    (exWeightGo as n (Ex.lit 1)).mag = weightP (absP as) n := by
+  have gen : ∀ (as : List ℚ) (n : Nat) (e : Ex), (exWeightGo as n e).mag = e.mag * weightP (absP as) n := by
+    intro as
+    induction as with
+    | nil => intro n e; simp [exWeightGo, weightP, absP]
+    | cons a as ih =>
+      intro n e
+      simp only [exWeightGo, absP, List.map_cons, weightP]
+      rw [ih]
+      by_cases hb : (n % 2 == 1) = true <;> simp only [hb, if_true, if_false, Bool.false_eq_true, Ex.mag] <;>
+        simp only [absP] <;> ring
+  rw [gen]; simp [Ex.mag]
+
+theorem exWeightGo_facts (rnd : ℚ → ℚ) (as : List ℚ) (n : Nat) (e : Ex) (eF : Fl rnd) (hF : e.fl rnd = eF.val) :
+    (exWeightGo as n e).fl rnd = (weightGo (as.map fun a => (⟨a⟩ : Fl rnd)) n eF).val ∧
+    (exWeightGo as n e).exact = weightGo as n e.exact ∧
+    (exWeightGo as n e).cnt ≤ e.cnt + 2 * as.length := by
+  induction as generalizing n e eF with
+  | nil => exact ⟨hF, rfl, by simp [exWeightGo]⟩
+  | cons a as ih =>
+    simp only [exWeightGo, List.map_cons, weightGo, List.length_cons]
+    have hF' : (Ex.mul e (if n % 2 == 1 then Ex.lit a else Ex.oneMinus a)).fl rnd =
+        (eF * (if n % 2 == 1 then (⟨a⟩ : Fl rnd) else 1 - ⟨a⟩)).val := by
+      show rnd (e.fl rnd * _) = rnd (eF.val * _)
+      rw [hF]
+      by_cases hb : (n % 2 == 1) = true <;> simp only [hb, if_true, if_false, Bool.false_eq_true] <;> rfl
+    obtain ⟨h1, h2, h3⟩ := ih (n / 2) _ _ hF'
+    refine ⟨h1, ?_, ?_⟩
+    · rw [h2]
+      congr 1
+      by_cases hb : (n % 2 == 1) = true <;> simp only [hb, if_true, if_false, Bool.false_eq_true, Ex.exact]
+    · have hh : (Ex.mul e (if n % 2 == 1 then Ex.lit a else Ex.oneMinus a)).cnt ≤ e.cnt + 2 := by
+        by_cases hb : (n % 2 == 1) = true <;> simp [hb, Ex.cnt]
+      omega
+
+/-- **generic branch exactly as coded** (`f` accumulated from the left starting at 1): same bound -/
+theorem linGenericC_round (u : ℚ) (rnd : ℚ → ℚ) (h : StdModel u rnd) (as : List ℚ) (v : List Bool → ℚ) :
+    |(linGenericC (as.map fun a => (⟨a⟩ : Fl rnd)) (inj rnd v)).val - nlin as v| ≤
+      g u (2 * as.length + 2 ^ as.length + 1) * nlinAbs as v := by
+  have facts := fun n => exWeightGo_facts rnd as n (Ex.lit 1) (1 : Fl rnd) rfl
+  have := generic_round_of u rnd h as v (fun n => exWeightGo as n (Ex.lit 1))
+    (weightC (as.map fun a => (⟨a⟩ : Fl rnd)))
+    (fun n => (facts n).1)
+    (fun n => by rw [(facts n).2.1]; simp [Ex.exact, weightGo_eq])
+    (fun n => weightGoP_eq as n)
+    (fun n => by have := (facts n).2.2; simpa [Ex.cnt] using this)
+  unfold linGenericC
+  rw [List.length_map]
+  exact this
+
+/-- in exact arithmetic the two association orders agree (so `linGenericC = linGeneric = nlin`) -/
+theorem linGenericC_eq (as : List ℚ) (v : List Bool → ℚ) : linGenericC as v = nlin as v := by
+  rw [← generic_eq_nlin]
+  unfold linGenericC linGeneric weightC
+  congr 1
+  funext acc n
+  rw [weightGo_eq, one_mul]
 
 /-- the judge's `γ_k = k·u / (1 − k·u)` dominates `(1+u)^k − 1` -/
 theorem gamma_bound (u : ℚ) (hu : 0 ≤ u) (k : ℕ) (hk : (k : ℚ) * u < 1) : g u k ≤ (k : ℚ) * u / (1 - (k : ℚ) * u) := by
